@@ -40,7 +40,7 @@ DAY = 86400
 
 
 def n_cases(tier):
-    return 200 if tier == 'quick' else 3000
+    return 300 if tier == 'quick' else 20000
 
 
 # ------------------------------------------------------------------------------------------------
